@@ -4,6 +4,7 @@ import (
 	"bytes"
 	"compress/gzip"
 	"encoding/json"
+	"encoding/xml"
 	"errors"
 	"fmt"
 	"io"
@@ -24,12 +25,46 @@ type c14Input struct {
 	Gz      bool `json:"gz"`
 	Procs   int  `json:"procs"`
 	Yield   bool `json:"yield"`
+	ErrKind int  `json:"errkind,omitempty"` // what the failing output returns: 0 its own error, 1 io.EOF, 2 an error wrapping io.EOF, 3 io.ErrUnexpectedEOF, 4 io.ErrClosedPipe, 5 io.ErrShortWrite
+	BadDoc  int  `json:"baddoc,omitempty"`  // 0: a database; 1: a value encoding/xml rejects at once; 2: a value whose marshaller fails after writing a lot
+}
+
+// failingDoc is a document whose own marshalling fails after n elements have been written.
+type failingDoc struct{ N int }
+
+func (d failingDoc) MarshalXML(e *xml.Encoder, start xml.StartElement) error {
+	if err := e.EncodeToken(start); err != nil {
+		return err
+	}
+	for i := 0; i < d.N; i++ {
+		if err := e.EncodeElement(strings.Repeat("x", 60), xml.StartElement{Name: xml.Name{Local: "item"}}); err != nil {
+			return err
+		}
+	}
+	return errors.New("document: cannot be marshalled any further")
+}
+
+func sinkError(kind int) error {
+	switch kind {
+	case 1:
+		return io.EOF
+	case 2:
+		return fmt.Errorf("sink: connection closed: %w", io.EOF)
+	case 3:
+		return io.ErrUnexpectedEOF
+	case 4:
+		return io.ErrClosedPipe
+	case 5:
+		return io.ErrShortWrite
+	}
+	return errSinkFail
 }
 
 type countingWriter struct {
 	buf    bytes.Buffer
 	writes int
 	failAt int
+	kind   int
 	yield  bool
 	r      *Rng
 }
@@ -44,7 +79,7 @@ func (w *countingWriter) Write(p []byte) (int, error) {
 		}
 	}
 	if w.failAt >= 0 && w.writes >= w.failAt {
-		return 0, errSinkFail
+		return 0, sinkError(w.kind)
 	}
 	w.writes++
 	w.buf.Write(p)
@@ -91,8 +126,14 @@ func c14Run(in c14Input, r *Rng) c14Obs {
 	if in.Procs > 0 {
 		defer runtime.GOMAXPROCS(runtime.GOMAXPROCS(in.Procs))
 	}
-	w := &countingWriter{failAt: in.K, yield: in.Yield, r: r}
-	db := c14DB(in)
+	w := &countingWriter{failAt: in.K, kind: in.ErrKind, yield: in.Yield, r: r}
+	var db any = c14DB(in)
+	switch in.BadDoc {
+	case 1:
+		db = struct{ M map[string]int }{map[string]int{"a": 1}}
+	case 2:
+		db = failingDoc{N: 40 + 60*in.Laps}
+	}
 	done := make(chan error, 1)
 	go func() {
 		var opts []laptimer.EncoderOpt
@@ -158,6 +199,20 @@ func runC14(ctx *Ctx) error {
 			}
 		}
 	}
+	if ctx.Replay == "" {
+		// documents whose own marshalling fails (at once / after several pipe buffers), output healthy or failing late
+		for _, bd := range []int{1, 2} {
+			for _, gz := range []bool{false, true} {
+				for _, k := range []int{-1, 0, 1, 5, 30} {
+					for _, laps := range []int{0, 3} {
+						in := c14Input{Laps: laps, K: k, Gz: gz, BadDoc: bd, Yield: ctx.R.Bool()}
+						o := c14Run(in, ctx.R.Fork())
+						addC14Obs(ctx, in, o, 1000, nil)
+					}
+				}
+			}
+		}
+	}
 	for _, in := range inputs {
 		if in.K != -1 || ctx.Replay != "" {
 			addC14(ctx, in, nil)
@@ -180,6 +235,7 @@ func runC14(ctx *Ctx) error {
 			for _, pr := range procs {
 				f.Procs = pr
 				f.Yield = ctx.R.Chance(0.5)
+				f.ErrKind = ctx.R.Intn(6)
 				o := c14Run(f, ctx.R.Fork())
 				addC14Obs(ctx, f, o, W, ref.Out)
 			}
@@ -189,6 +245,10 @@ func runC14(ctx *Ctx) error {
 }
 
 func addC14(ctx *Ctx, in c14Input, _ []byte) {
+	if in.BadDoc != 0 {
+		addC14Obs(ctx, in, c14Run(in, ctx.R.Fork()), 1000, nil)
+		return
+	}
 	free := in
 	free.K = -1
 	free.Procs, free.Yield = 0, false
@@ -212,8 +272,12 @@ func addC14Obs(ctx *Ctx, in c14Input, o c14Obs, W int, ref []byte) {
 	if in.K >= 0 {
 		k = fmt.Sprintf("(Some %d%%nat)", in.K)
 	}
+	if in.BadDoc != 0 {
+		// the document itself cannot be encoded: the call must still return an error, in bounded time, leaving nothing behind
+		k = "(Some 0%nat)"
+	}
 	coq := fmt.Sprintf("(mkCase %d%%nat %s %s %s %s %s %s)", W, k, CoqBool(in.Gz), CoqBool(o.Returned), CoqBool(o.Err), CoqBool(o.Leak), CoqBool(complete))
 	b, _ := json.Marshal(in)
 	ctx.Add(Case{Coq: coq, Input: in, Obs: map[string]any{"W": W, "returned": o.Returned, "err": o.Err, "leak": o.Leak, "writes": o.Writes, "complete": complete, "detail": o.Detail},
-		Key: string(b), Trivial: false, Tags: []string{fmt.Sprintf("gz:%v", in.Gz), fmt.Sprintf("returned:%v", o.Returned), fmt.Sprintf("err:%v", o.Err), fmt.Sprintf("procs:%d", in.Procs)}})
+		Key: string(b), Trivial: false, Tags: []string{fmt.Sprintf("gz:%v", in.Gz), fmt.Sprintf("returned:%v", o.Returned), fmt.Sprintf("err:%v", o.Err), fmt.Sprintf("procs:%d", in.Procs), fmt.Sprintf("errkind:%d", in.ErrKind), fmt.Sprintf("baddoc:%d", in.BadDoc)}})
 }
